@@ -31,7 +31,7 @@ Has(seq, id) == Idx(seq, id) # 0
 ValidTypes == {"u1", "u4", "u8", "u16", "u24", "u32", "u64", "i4", "i8", "i16", "i24", "i32", "i64", "f32", "f64"}
 
 NewSig(ev) ==
-    [id |-> ev.id, src |-> ev.src, st |-> ev.st, dt |-> ev.dt, bits |-> ev.bits,
+    [id |-> ev.id, src |-> ev.src, st |-> ev.st, dt |-> ev.dt, fq |-> ev.fq, bits |-> ev.bits,    \* fq: fixed-point position, part of the data type
      rate |-> IF ev.st = 1 THEN 0 ELSE ev.rate,
      norm |-> Normalise(ev.bits, [spd |-> ev.spd, sdf |-> ev.sdf, eps |-> ev.eps, sumdf |-> ev.sumdf, adf |-> ev.adf, udf |-> ev.udf]),
      name |-> AbsentToEmpty(ev.name), units |-> AbsentToEmpty(ev.units),
@@ -39,7 +39,7 @@ NewSig(ev) ==
      reg |-> 0, nblk |-> 0, synth |-> {},
      annos |-> <<>>, utcs |-> <<>>, i2t |-> {}, t2i |-> {}, gen |-> "", gp |-> 0]
 
-Sig0Ev == [id |-> 0, src |-> 0, st |-> 1, dt |-> "f32", bits |-> 32, rate |-> 0, spd |-> 10, sdf |-> 10, eps |-> 10,
+Sig0Ev == [id |-> 0, src |-> 0, st |-> 1, dt |-> "f32", fq |-> 0, bits |-> 32, rate |-> 0, spd |-> 10, sdf |-> 10, eps |-> 10,
            sumdf |-> 10, adf |-> 100, udf |-> 100, name |-> Sig0Name, units |-> "s:"]
 
 Fresh == [mode |-> "init", srcs |-> <<>>, sigs |-> <<>>, ud |-> <<>>]
@@ -192,7 +192,7 @@ RdSourcesVerdict(S, ev) ==
              want == [k \in 1..Len(ids) |-> <<ids[k]>> \o [j \in 1..5 |-> AbsentToEmpty(S.srcs[Idx(S.srcs, ids[k])].s[j])]]
          IN IF ev.items = want THEN "" ELSE "sources differ from the definitions written"
 
-SigRec(g) == [id |-> g.id, src |-> g.src, st |-> g.st, dt |-> g.dt, rate |-> g.rate, spd |-> g.norm.spd, sdf |-> g.norm.sdf,
+SigRec(g) == [id |-> g.id, src |-> g.src, st |-> g.st, dt |-> g.dt, fq |-> g.fq, rate |-> g.rate, spd |-> g.norm.spd, sdf |-> g.norm.sdf,
               eps |-> g.norm.eps, sumdf |-> g.norm.sumdf, adf |-> g.norm.adf, udf |-> g.norm.udf, name |-> g.name, units |-> g.units]
 
 RdSignalsVerdict(S, ev) ==
